@@ -8,7 +8,7 @@ def unsat(n):
     keep=set(idx[:n])
     q=['(set-logic ALL)']+[l for i,l in enumerate(s) if (i not in set(idx)) or i in keep]+['(check-sat)']
     open('/tmp/_p.smt2','w').write('\n'.join(q))
-    r=subprocess.run(['z3-new','-T:8','/tmp/_p.smt2'],capture_output=True,text=True).stdout.split('\n')[0]
+    r=subprocess.run(["z3","-T:8",'/tmp/_p.smt2'],capture_output=True,text=True).stdout.split('\n')[0]
     return r=='unsat'
 lo,hi=0,len(idx)
 if not unsat(hi): print("full prefix not unsat"); sys.exit()
